@@ -1095,12 +1095,20 @@ func (p *Parser) parseMapscriptsStatement() (*ast.MapScriptsStatement, *impData,
 	}
 	p.nextToken()
 
+	// Inline scripts and tables get a label derived from the map script type, so each type can only have one of them.
+	typesWithLabel := map[string]struct{}{}
 	for p.curToken.Type != token.RBRACE {
 		if p.curToken.Type != token.IDENT {
 			return nil, nil, NewParseError(p.curToken, fmt.Sprintf("expected map script type, but got '%s' instead", p.curToken.Literal))
 		}
 		mapScriptTypeToken := p.curToken
 		p.nextToken()
+		if p.curToken.Type == token.LBRACE || p.curToken.Type == token.LBRACKET {
+			if _, ok := typesWithLabel[mapScriptTypeToken.Literal]; ok {
+				return nil, nil, NewParseError(mapScriptTypeToken, fmt.Sprintf("duplicate map script type '%s'. Only one inline script or table is allowed per type, because its label '%s_%s' is derived from the type", mapScriptTypeToken.Literal, statement.Name.Value, mapScriptTypeToken.Literal))
+			}
+			typesWithLabel[mapScriptTypeToken.Literal] = struct{}{}
+		}
 		if p.curToken.Type == token.COLON {
 			if err := p.expectPeek(token.IDENT); err != nil {
 				return nil, nil, NewParseError(p.peekToken, fmt.Sprintf("expected map script label after ':', but got '%s' instead", p.peekToken.Literal))
